@@ -384,6 +384,12 @@ def eval_link(rec, bench, res):
         q = st["q"]
         if bystander is not None:      # another object of the class is used in between (class-level state)
             call(res, "bystander", bystander[0].decode, np.zeros((bystander[1], 2), dtype=complex))
+        # repeated same-shape calls with OTHER data in between: their results are held as well, and they must
+        # not disturb the results held so far
+        decoy = x[::-1] * 1j
+        okc, encd = g.call("encode(other block)", o.encode, g.variant(decoy))
+        if okc:
+            g.call("decode(other block)", o.decode, g.variant(H.dot(np.asarray(encd))))
         okc, enc2 = g.call("encode", o.encode, g.variant(x))
         if not okc:
             return res.bad(f"{tag}: step {i}: encode raised {res.extra['exception']}")
